@@ -46,7 +46,9 @@ class CHECK(FloCheck):
                "oracle recomputes outline/head from the declared `in`/`under` links (harness code floref.Machine.link)",
                "well-formedness `WF` of a program (acyclic auxiliary references, one clause per auxiliary, `done me` only, "
                "outlines from a forest) is a hypothesis of the theorems; the generator keeps auxiliary references acyclic "
-               "but does share auxiliaries between clauses — those runs are covered by the correspondence only"]
+               "but does share auxiliaries between clauses — those runs are covered by the correspondence and the oracle "
+               "only (they need fixes/D3b-… and fixes/D3d-…; the frame naming one auxiliary both plain and conditional is "
+               "known finding D3e)"]
     PARTIAL = ["C05_step_partial / C05_tick_partial / C05_reachable_partial: hypothesis `bad = false` (no Suspender "
                "truncated while another conditional auxiliary of the same framer was running; no enterAll on a still "
                "active framer); the full statement is refuted by C05_counterexample_D3 (known finding D3)",
@@ -131,5 +133,5 @@ class CHECK(FloCheck):
         flags = [l for l in reply.split("|") if l.startswith("G ")]
         if not flags:
             return False
-        want = {"D3": "overlap=1", "D3b": "shared=1", "D3c": "reenter=1"}.get(finding.get("id"))
+        want = {"D3": "overlap=1", "D3c": "reenter=1", "D3e": "both=1"}.get(finding.get("id"))
         return want is not None and want in flags[0]
